@@ -657,6 +657,12 @@ func (s *MuxSim) stepData(i int, op *MuxOp, rec *CallRec) {
 	if !bytes.Equal(pes.Data, rec.Payload) {
 		s.v("C16", "caller-payload-modified", "", "call %d: WriteData modified the caller's payload bytes", i)
 	}
+	if spec.NilOpt && pes.Header.OptionalHeader != nil {
+		// The library filled in the header struct of the caller, who goes on using it: whatever it
+		// put there belongs to this call alone.
+		*pes.Header.OptionalHeader = astits.PESOptionalHeader{MarkerBits: 2, PTSDTSIndicator: astits.PTSDTSIndicatorOnlyPTS, PTS: &astits.ClockReference{Base: int64(0x15555 + i)}, DataAlignmentIndicator: true}
+		s.Out.Probe("installed-header-reused-by-caller")
+	}
 	if !known {
 		s.sinceHi++
 		s.Out.Probe("data-unknown-pid")
@@ -796,7 +802,7 @@ func (s *MuxSim) stepPacket(i int, op *MuxOp, rec *CallRec) {
 	if rec.Err != nil {
 		s.Out.Probe("packet-rejected")
 		s.rejectedWroteNothing(rec, "WritePacket")
-		if fits && !staleOversize {
+		if fits && !staleOversize && ps.Wide&0xe000 == 0 {
 			s.v("C04", "packet-rejected", "", "call %d: WritePacket failed with %v for a packet of %d bytes", i, rec.Err, size)
 		}
 		return
